@@ -1392,12 +1392,13 @@ func (client *client) pollInflights() (cont bool, err error) {
 }
 
 func (client *client) pollNewMessages(ids []packets.PacketID) (unused []packets.PacketID, err error) {
-	now := time.Now()
 	var elems []*queue.Elem
 	elems, err = client.queueStore.Read(ids)
 	if err != nil {
 		return nil, err
 	}
+	// Read blocks until there are messages, sample the time afterwards.
+	now := time.Now()
 	for _, v := range elems {
 		switch m := v.MessageWithID.(type) {
 		case *queue.Publish:
@@ -1405,8 +1406,16 @@ func (client *client) pollNewMessages(ids []packets.PacketID) (unused []packets.
 				ids = ids[1:]
 			}
 			if client.version == packets.Version5 && m.Message.MessageExpiry != 0 {
-				d := uint32(now.Sub(v.At).Seconds())
-				m.Message.MessageExpiry = d
+				// forward the remaining lifetime: the received value minus the time the message has been waiting.
+				var waited uint32
+				if d := now.Sub(v.At); d > 0 {
+					waited = uint32(d.Seconds())
+				}
+				if waited < m.Message.MessageExpiry {
+					m.Message.MessageExpiry -= waited
+				} else {
+					m.Message.MessageExpiry = 1
+				}
 			}
 			client.write(gmqtt.MessageToPublish(m.Message, client.version))
 		case *queue.Pubrel:
